@@ -3,6 +3,7 @@ package main
 import (
 	"fmt"
 	"reflect"
+	"sync"
 	"time"
 	"unsafe"
 
@@ -71,6 +72,49 @@ func c10DumpSync(r *ringz.SyncRing[int]) []int64 {
 	return PutList(l)
 }
 
+// Honest runs of more than 2^32 pairs take longer than the framework's per-case timeout: the generator starts them
+// ahead of time (c10Prepare) and the kind-2 case picks the finished ring up here.
+type c10HonestRes struct {
+	ring ringz.SyncRing[int]
+	good bool
+}
+
+var c10HonestMu sync.Mutex
+var c10Honest = map[[2]int64]*c10HonestRes{}
+
+func c10HonestRun(r *ringz.SyncRing[int], n int64) bool {
+	for i := int64(0); i < n; i++ {
+		x := int(i&0xffff) + 1
+		if !r.Push(x) {
+			return false
+		}
+		if v, ok := r.Pop(); !ok || v != x {
+			return false
+		}
+	}
+	return true
+}
+func c10Prepare(req, n int64, wg *sync.WaitGroup) {
+	wg.Add(1)
+	go func() {
+		defer wg.Done()
+		res := &c10HonestRes{ring: ringz.NewSync[int](int(req))}
+		res.good = c10HonestRun(&res.ring, n)
+		c10HonestMu.Lock()
+		c10Honest[[2]int64{req, n}] = res
+		c10HonestMu.Unlock()
+	}()
+}
+func c10CloneSync(r *ringz.SyncRing[int]) ringz.SyncRing[int] {
+	c := *r
+	f := c10Field(reflect.ValueOf(&c).Elem(), "values")
+	w := reflect.NewAt(f.Type(), unsafe.Pointer(f.UnsafeAddr())).Elem()
+	nv := reflect.MakeSlice(f.Type(), w.Len(), w.Len())
+	reflect.Copy(nv, w)
+	w.Set(nv)
+	return c
+}
+
 // the capacity NewSync would allocate (to keep the harness from allocating gigabytes on a generator slip)
 func c10AllocGuard(c int64) bool {
 	if c <= 0 {
@@ -130,19 +174,15 @@ func c10Impl(in []int64) []int64 {
 			c10Inject(&r, uint64(inj))
 		}
 		if kind == 2 {
-			good := true
-			for i := int64(0); i < inj; i++ {
-				x := int(i&0xffff) + 1
-				if !r.Push(x) {
-					good = false
-					break
-				}
-				if v, ok := r.Pop(); !ok || v != x {
-					good = false
-					break
-				}
+			c10HonestMu.Lock()
+			pre := c10Honest[[2]int64{c, inj}]
+			c10HonestMu.Unlock()
+			if pre != nil {
+				r = c10CloneSync(&pre.ring)
+				out = append(out, B(pre.good))
+			} else {
+				out = append(out, B(c10HonestRun(&r, inj)))
 			}
-			out = append(out, B(good))
 		}
 		for i := 0; i+1 < len(ops); i += 2 {
 			code, a := ops[i], ops[i+1]
@@ -212,6 +252,12 @@ func c10SyncCap(req int64) int64 {
 }
 
 func c10Gen(c *Ctx) {
+	var honestWG sync.WaitGroup
+	if !c.Quick() {
+		// more than 2^32 honest push/pop pairs (minutes): started now, used by family 6
+		c10Prepare(2, 1<<32+5, &honestWG)
+		c10Prepare(1, 1<<32-1, &honestWG)
+	}
 	// ---------------- 1. Ring, exhaustive small scope: caps 1..5, every sequence of mutators up to length L,
 	// full observation (Len IsEmpty IsFull Cap Peek) after every step, Dump + drain at the end.
 	type op2 [2]int64
@@ -466,6 +512,7 @@ func c10Gen(c *Ctx) {
 		h2 := []int64{2, 1, 1<<32 - 1, 0, 1, 0, 2, 0, 3, 3, 0, 5, 0}
 		honest = append(honest, append(h2, c10Final(1, 3)...))
 	}
+	honestWG.Wait()
 	c.Each(len(honest), func(i int, t *T) { t.Try("sync-honest-pairs", honest[i], true) })
 }
 
